@@ -270,8 +270,13 @@ def h_multiply(V, N, nr_phys_b):
         V.check('rejects-MPS-on-the-left', out.exc is not None and isinstance(out.exc, YastnError))
 
 
+import contracts.mps_values as MV
+from contracts.mps_values import h_env3_refresh, h_overlap_values, h_mpo_values, h_env3_values, h_env_sum_project_values, h_measure_values
+FUNCTIONS = list(FUNCTIONS) + [f_ for f_ in MV.FUNCTIONS if f_ not in FUNCTIONS]
+
+
 def units(tier):
-    U = []
+    U = MV.units(tier, 'C06')
     th = tier == 'thorough'
     Ns = range(1, (7 if th else 5) + 1)
     for nr in (1, 2):
